@@ -69,6 +69,22 @@ def replay_one(beh):
             for d, mc in enumerate(hub.memories):
                 if list(mc.mem.memory_array) != st['post'][d]:
                     return [], si
+    # physical addresses are 40 bits wide (supersection / long-descriptor outputs): an address with PA<39:32> # 0 is covered
+    # by no controller (Mem!PhysRead / PhysWrite: ext # 0 addresses nothing) - it reads zero and a write changes no device
+    before = [bytes(mc.mem.memory_array) for mc in hub.memories]
+    last = beh[-1]
+    for ext in (1, 0x80, 0xFF):
+        for sz in (1, 4, 8):
+            a = (ext << 32) | ((off + last['addr']) & 0xFFFFFFFF)
+            try:
+                v = hub[_desc(a), sz]
+                hub[_desc(a), sz] = (1 << (8 * sz)) - 1
+            except Exception as ex:
+                return ['hosterror:%s' % type(ex).__name__], len(beh) - 1
+            if v != 0:
+                return ['ext-alias-read'], len(beh) - 1
+            if [bytes(mc.mem.memory_array) for mc in hub.memories] != before:
+                return ['ext-alias-write'], len(beh) - 1
     return [], len(beh) - 1
 
 
@@ -115,7 +131,7 @@ def run(ctx):
     ctx.sample({'spec behaviour replayed on MemoryControllerHub': behs2[0][:3]})
     ctx.extra['rule'] = ('all MC_Hub behaviours of depth 2 (7 layouts x every address 6..20 x sizes 1/2/4/8 x read/write) '
                          'and simulated depth-8 behaviours replayed on a real hub: device sizes, every byte, values read, '
-                         'no host error')
+                         'no host error; after each behaviour the same address with PA<39:32> = 1 / 0x80 / 0xFF reads zero and ignores writes')
     ctx.exhaustive = True
 
 
